@@ -73,10 +73,11 @@ def opf_accuracy(
     labels = np.asarray(labels)
     preds = np.asarray(preds)
 
-    n_class = np.max(labels) + 1
+    # A predicted class may be absent from the true labels (e.g., after `learn` swapped samples)
+    n_class = max(np.max(labels), np.max(preds)) + 1
 
     errors = np.zeros((n_class, 2))
-    counts = np.bincount(labels)
+    counts = np.bincount(labels, minlength=n_class)
 
     for label, pred in zip(labels, preds):
         if label != pred:
